@@ -116,6 +116,7 @@ class World:
         self.sim.eager_wake = float(k.get('eager_wake', 0.0))
         self.bus = SimBus(self.sim, scn.get('latency'), scn.get('faults'), seed=scn['seed'])
         self.deliveries = []
+        self._shared = {}
         self.delivery_hooks = []     # callables(stack, listener, pgn, sa, data) run inside the listener callback (application reacting)
         self.stacks = {}
         if tracer_factory is not None:
@@ -124,6 +125,15 @@ class World:
             self.stacks[s['name']] = Stack(self, s)
 
     def _listener(self, stack, lid):
+        cfg = next((x for x in self.scn.get('stacks', []) if x['name'] == stack), {})
+        if cfg.get('shared_callback'):
+            # one callable registered for every CA / ECU-level listener of the stack (an application with a single receive function)
+            if stack not in self._shared:
+                self._shared[stack] = self._make_listener(stack, 'shared')
+            return self._shared[stack]
+        return self._make_listener(stack, lid)
+
+    def _make_listener(self, stack, lid):
         def cb(priority, pgn, sa, timestamp, data):
             d = bytes(bytearray(data)) if data is not None else None
             self.deliveries.append({'t': self.sim.now, 'stack': stack, 'l': lid, 'prio': priority, 'pgn': pgn,
